@@ -1189,7 +1189,7 @@ example (lk : PriceLookup) (hlk : lk ≠ .none) :
       = .ok (unchanged (post "c" 5 "EUR")) :=
   (convert_value file txns "EUR" lk hlk t2 (by simp [txns]) (post "c" 5 "EUR") (by simp [t2])).1 (Or.inr rfl)
 
-/-- regression witness of F18 (fixed by fixes/F18-last-price-unbounded.diff): last-price uses an entry at the
+/-- regression witness of F19 (fixed by fixes/F19-last-price-unbounded.diff): last-price uses an entry at the
     largest representable instant (jiff `Timestamp::MAX`) -/
 def tsMax : Int := 253402207200999999999
 example : ctxFixedEntry (makeCtx .lastPrice txns (some "EUR") (loadDb [⟨tsMax, "USD", d 5, "EUR"⟩])) "USD" "EUR"
